@@ -753,7 +753,7 @@ func (g *gen) jsonDoc(d int) interface{} {
 }
 
 // compile-mode inputs for C08: random bytes, token soup, and random edits of valid programs
-var soupTokens = []string{"a", "$x", "$", "$$", "1", "1.5", "1e3", "\"s\"", "'s'", "`n`", "/r/", "/r/i", "(", ")", "[", "]", "{", "}", ".", "..", ",", ";", ":", ":=",
+var soupTokens = []string{"99999999999999999999", "9223372036854775808", "18446744073709551616", "1e999", "1e-999", "0.00000000000000000000000000001", "123456789012345678901234567890.5", "``", "`a b`", "a", "$x", "$", "$$", "1", "1.5", "1e3", "\"s\"", "'s'", "`n`", "/r/", "/r/i", "(", ")", "[", "]", "{", "}", ".", "..", ",", ";", ":", ":=",
 	"?", "+", "-", "*", "**", "/", "%", "|", "=", "!=", "<", "<=", ">", ">=", "~>", "^", "&", "and", "or", "in", "true", "false", "null", "function", "λ", "!", "~", "@", "#", "é", "\\", "\"", "'", "`", " ", "\n", "<n:n>", "<a<s>>"}
 
 // a name, a variable, a number or a string literal
